@@ -152,11 +152,11 @@ PROPS['C04'] = {
 PROPS['C05'] = {
     'level': 'fault_enumeration',
     'technique': 'exhaustive single-fault enumeration: for every internally-dropping operation from every iterator position, every choice of the one element whose destructor panics, on the real code; the run continues after the caught panic and a drop ledger is judged',
-    'parts': [engine_part('destructor-panic-enumeration', 'e_fault', 'C05', shards_quick=4, asan='thorough')],
+    'parts': [engine_part('destructor-panic-enumeration', 'e_fault', 'C05', shards_quick=4, asan='thorough'), engine_part('serde-teardown', 'e_misc', 'C05', shards_quick=1)],
     'rule': ("for every (origin fresh|clone, front f, back b) of the by-value iterator with N in 0..=6 (thorough: 7, 8 complete and 16 on the position lattice) x operation in {nth(n), nth_back(n) for n in 0..=len+1, count, last, drop, "
              "fold/rfold/for_each with a dropping closure, clone-then-drop, collect-then-drop}; dropping a GenericArray / Box / fresh iterator / boxed into_iter; ArrayBuilder, IntrusiveArrayBuilder and ArrayConsumer dropped at every position; the "
              "error paths of try_from_iter, from_iter, try_boxed_from_iter, boxed from_iter, TryFrom<Vec>, try_from_vec, try_from_boxed_slice, TryFrom<Box<[T]>> for c in {0,1,N-1,N,N+1,N+2}; map/zip/fold (owned and boxed) with closures that drop "
-             "their arguments, N in {0..6,9,17} (thorough +7,8,16,33): a fault-free run lists the elements destroyed after the arming point, then one execution per such element with its destructor panicking once (never while already panicking). "
+             "their arguments, N in {0..6,9,17} (thorough +7,8,16,33); the deserialisation error paths (scripted source offering c in 0..=N+2 elements, an element error at every index, N in {0..6,8,16}); a fault-free run lists the elements destroyed after the arming point, then one execution per such element with its destructor panicking once (never while already panicking). "
              "After the caught panic the views are observed, next/next_back called once more and everything dropped. A case is one (operation, position, N, element type, panicking element); non-trivial = the destructor panicked inside the operation. "
              "Oracle: no id dropped twice, none observed after its drop, zero-sized drops never exceed creations; leaks are counted, not flagged."),
     'exhaustive': True,
